@@ -64,6 +64,12 @@ def check(run):
                 big.append([case("Insert", s0, sp, i, 0, 41)])
             big.append([case("Grow", s0, sp, 0, 5)])
     plans += big if not run.quick() else run.rng.sample(big, 1200)
+    # element sizes that are not powers of two, slices longer than any block a filling loop might use
+    for ty, ns in (("s24", (17, 1025, 1200, 2100)), ("b3", (17, 1025, 8200, 8300)), ("b1200", (16, 17, 18, 40, 100))):
+        for n in (ns if not run.quick() else ns[:3] + ns[-1:]):
+            plans.append([dict(case("Repeat", [], k=n, v=7), ty=ty)])
+            plans.append([dict(case("Fill", [2] * n, spare=1, v=9), ty=ty)])
+            plans.append([dict(case("Reverse", [(j % 5) + 1 for j in range(n)]), ty=ty)])
     # inputs that are neighbouring views of one backing array (a result that merely re-slices them is not "new")
     for n in range(0, 5):
         for m in range(0, 4):
